@@ -33,13 +33,54 @@ def const_strings(body):
     return out
 
 
-def _add_model(ctx, facts):
+NAME_P = 3   # position of the `name` parameter of the registration entry being looked at (set by _entries' users)
+DEP_P = 4    # position of its `dep` parameter
+
+
+class _Entry(object):
+    def __init__(self, body, ev, ends, name_p, dep_p):
+        self.body, self.ev, self.ends, self.name_p, self.dep_p = body, ev, ends, name_p, dep_p
+        self.label = body.name
+
+
+def _params_by_type(b):
+    names = [i for i in range(1, b.arg_count + 1) if b.locals[i]["ty"].replace("'_ ", "").replace(" ", "") in ("&str",) or re.match(r"^&('\w+ )?str$", b.locals[i]["ty"])]
+    deps = [i for i in range(1, b.arg_count + 1) if re.match(r"^&('\w+ )?\[&('\w+ )?str\]$", b.locals[i]["ty"])]
+    return names, deps
+
+
+def _entries(ctx, facts):
+    """The registration entries: every method of DispatcherBuilder that hands a system to StagesBuilder::insert itself
+    (rather than through another entry).  On today's tree that is `add`; `add_batch` goes through `add`."""
     from . import semq as Q
     add = facts.one(A.DB + "::add")
     nid = facts.one(A.DB + "::next_id")
     ins = facts.one(A.SB + "::insert")
-    ev, ends = Q.sem(ctx, facts, A.DB + "::add", opaque=[A.DB + "::next_id", A.SB + "::insert"])
-    return add, nid, ins, ev, ends
+    out = []
+    for b in sorted(facts.find(self_head=A.DB, container="inherent"), key=lambda b: b.key):
+        if b.is_closure or b.key in (nid.key,):
+            continue
+        cone = facts.cone([b], stop=lambda x: x.key == ins.key or (x.key == add.key and b.key != add.key))
+        if not any(Callee(t["func"]).key == ins.key or Callee(t["func"]).resolved_key == ins.key for x in cone.values() for bb, t in x.normal_calls()):
+            continue
+        if not b.raw.get("pub") and S.owned_by(facts, b, set(x.key for x in facts.find(self_head=A.DB, container="inherent") if x.raw.get("pub"))):
+            continue   # a private helper of an entry: looked at inside the entry
+        ev, ends = Q.sem(ctx, facts, b, opaque=[nid.key, ins.key] + ([add.key] if b.key != add.key else []))
+        if not any(x[0] == "call" and x[2].key == ins.key for e in ends for x in _deep_events(e.path.events)):
+            continue
+        names, deps = _params_by_type(b)
+        if len(names) != 1 or len(deps) != 1:
+            raise AnchorError("registration entry %s: expected one `name: &str` and one `dep: &[&str]` parameter, found %d / %d" % (b.qname, len(names), len(deps)))
+        out.append(_Entry(b, ev, ends, names[0], deps[0]))
+    if not [m for m in out if m.body.key == add.key]:
+        raise AnchorError("DispatcherBuilder::add does not place systems through StagesBuilder::insert")
+    return add, nid, ins, out
+
+
+def _add_model(ctx, facts):
+    add, nid, ins, entries = _entries(ctx, facts)
+    m = [m for m in entries if m.body.key == add.key][0]
+    return add, nid, ins, m.ev, m.ends
 
 
 def _deep_events(events):
@@ -73,7 +114,7 @@ def _is_name(ev, t):
     """`t` is the `name` parameter of add (possibly made owned)."""
     from . import semq as Q
     s = Q.strip(ev, t, extra=("to_owned", "to_string", "into", "from", "as_str", "borrow"))
-    return s == ("param", 3)
+    return s == ("param", NAME_P)
 
 
 def _name_state(ev, e):
@@ -110,7 +151,7 @@ def _name_inserts(ev, events):
 def _dep_loop(ev, e):
     """The traversal of the `dep` parameter on this path: (Loop, index of the way it was left by, position) or None."""
     from . import semq as Q
-    hits = [(pos, x) for pos, x in enumerate(e.path.events) if x[0] == "loop" and x[1].source is not None and Q.strip(ev, x[1].source) == ("param", 4)]
+    hits = [(pos, x) for pos, x in enumerate(e.path.events) if x[0] == "loop" and x[1].source is not None and Q.strip(ev, x[1].source) == ("param", DEP_P)]
     if len(hits) != 1:
         return None
     pos, x = hits[0]
@@ -150,7 +191,18 @@ def ids(ctx, report, rule, facts, config, rejected_leaves_map=False):
     """C02.IDS: add() draws one fresh id, resolves every dependency name through the map before its own name is
     entered, and gives the same id to the map and to insert."""
     from . import semq as Q
-    add, nidb, insb, ev, ends = _add_model(ctx, facts)
+    global NAME_P, DEP_P
+    add, nidb, insb, entries = _entries(ctx, facts)
+    for M in entries:
+        NAME_P, DEP_P = M.name_p, M.dep_p
+        _ids_one(ctx, report, rule, facts, config, M, add, nidb, insb, rejected_leaves_map)
+    NAME_P, DEP_P = 3, 4
+    _ids_rest(ctx, report, rule, facts, config, nidb)
+
+
+def _ids_one(ctx, report, rule, facts, config, M, addb, nidb, insb, rejected_leaves_map):
+    from . import semq as Q
+    add, ev, ends = M.body, M.ev, M.ends
     report.touched(add, config)
     rets = [e for e in ends if e.kind == "return"]
     problems = []
@@ -173,7 +225,7 @@ def ids(ctx, report, rule, facts, config, rejected_leaves_map=False):
         a = ins[0][3]
         if Q.strip(ev, a[2]) != idt:
             problems.append("the id handed to insert is not the fresh id")
-        if not (a[0] == ("field", ("param", 1), "stages_builder", A.DB) and a[3] == ("param", 2)):
+        if not (a[0] == ("field", ("param", 1), "stages_builder", A.DB) and (a[3] == ("param", 2) or add.key != addb.key)):
             problems.append("insert is not called as self.stages_builder.insert(deps, id, system)")
         dl = _dep_loop(ev, e)
         if dl is None:
@@ -212,9 +264,13 @@ def ids(ctx, report, rule, facts, config, rejected_leaves_map=False):
         placed = [x for x in e.path.events if x[0] == "call" and x[2].key == insb.key]
         if muts and (e.kind != "return" or len(placed) != 1):
             problems.append("the name map is changed by `%s` on a path that does not place the system (a rejected registration leaves a stale name: the printed plan no longer matches what runs)" % muts[0][2].name)
-    report.ob(rule, "add/ids", not problems and len(rets) >= 2, "; ".join(sorted(set(problems))) if problems else
+    report.ob(rule, "%s/ids" % M.label, not problems and len(rets) >= 2, "; ".join(sorted(set(problems))) if problems else
               "one fresh id per call, dependencies resolved first, same id for the name map and the placement (%d paths)" % len(rets), site=add.loc(), config=config)
-    report.ob(rule, "add/lookup", not lookup and bool(rets), "each dependency name is looked up with self.map.get(name)" if not lookup else "; ".join(sorted(set(lookup))), site=add.loc(), config=config)
+    report.ob(rule, "%s/lookup" % M.label, not lookup and bool(rets), "each dependency name is looked up with self.map.get(name)" if not lookup else "; ".join(sorted(set(lookup))), site=add.loc(), config=config)
+
+
+def _ids_rest(ctx, report, rule, facts, config, nidb):
+    from . import semq as Q
     # next_id: returns SystemId(current_id), stores current_id + 1
     nb = nidb
     report.touched(nb, config)
@@ -244,8 +300,45 @@ def ids(ctx, report, rule, facts, config, rejected_leaves_map=False):
 
 def reject(ctx, report, rule, facts, config):
     """C18.REJECT / EMPTY: the two documented panics are exactly guarded."""
+    global NAME_P, DEP_P
+    add, nidb, insb, entries = _entries(ctx, facts)
+    for M in entries:
+        NAME_P, DEP_P = M.name_p, M.dep_p
+        _reject_one(ctx, report, rule, facts, config, M, insb)
+    NAME_P, DEP_P = 3, 4
+    _forwarders(ctx, report, rule, facts, config, add, [m.body.key for m in entries])
+
+
+def _forwarders(ctx, report, rule, facts, config, add, entry_keys):
+    """A method of the builder that registers through another entry (`add_batch` -> `add`) hands its own `name` and `dep` on
+    unchanged: otherwise what is checked for the entry is not what the caller asked for."""
     from . import semq as Q
-    add, nidb, insb, ev, ends = _add_model(ctx, facts)
+    n = 0
+    for b in sorted(facts.find(self_head=A.DB, container="inherent"), key=lambda b: b.key):
+        if b.is_closure or b.key in entry_keys:
+            continue
+        names, deps = _params_by_type(b)
+        if len(names) != 1 or len(deps) != 1:
+            continue
+        if not any(Callee(t["func"]).key == add.key or Callee(t["func"]).resolved_key == add.key for bb, t in b.normal_calls()):
+            continue
+        n += 1
+        report.touched(b, config)
+        ev, ends = Q.sem(ctx, facts, b, opaque=[add.key, A.DB + "::build", A.SB + "::fetch_all_reads", A.SB + "::fetch_all_writes"])
+        an, ad = _params_by_type(add)
+        ok = bool(Q.returns(ends))
+        for e in Q.returns(ends):
+            cs = [x for x in _deep_events(e.path.events) if x[0] == "call" and x[2].key == add.key]
+            if len(cs) != 1 or Q.strip(ev, cs[0][3][an[0] - 1]) != ("param", names[0]) or Q.strip(ev, cs[0][3][ad[0] - 1]) != ("param", deps[0]) or Q.strip(ev, cs[0][3][0]) != ("param", 1):
+                ok = False
+        report.ob(rule, "%s/forwards" % b.name, ok, "registers through add(.., name, dep) with its own name and dep, once on every way" if ok else
+                  "%s does not hand its own name and dependency list to add exactly once" % b.name, site=b.loc(), config=config)
+    report.floor(rule, "methods registering through add", n, 1, config=config)
+
+
+def _reject_one(ctx, report, rule, facts, config, M, insb):
+    from . import semq as Q
+    add, ev, ends = M.body, M.ev, M.ends
     report.touched(add, config)
     problems = []
     pr = []
@@ -255,7 +348,7 @@ def reject(ctx, report, rule, facts, config):
     for e in ends:
         is_empty = None
         for (ct, cv, cn, cs) in e.path.conds:
-            if Q.is_call(ev, ct, "is_empty") and Q.strip(ev, ct[2][0]) == ("param", 3):
+            if Q.is_call(ev, ct, "is_empty") and Q.strip(ev, ct[2][0]) == ("param", NAME_P):
                 is_empty = cv
         entry_variant = {"absent": "Vacant", "present": "Occupied"}.get(_name_state(ev, e))
         deep = _deep_events(e.path.events)
@@ -295,7 +388,7 @@ def reject(ctx, report, rule, facts, config):
                 if "same name" not in _strings(e.path.events):
                     problems.append("the duplicate-name panic does not carry the documented message")
                 fm = [x for x in deep if x[0] == "call" and x[2].name in ("new_display", "new_debug")]
-                if not any(Q.strip(ev, x[3][0]) == ("param", 3) for x in fm):
+                if not any(Q.strip(ev, x[3][0]) == ("param", NAME_P) for x in fm):
                     problems.append("the duplicate-name panic does not quote the offending name")
                 if ins:
                     problems.append("the system is inserted before the duplicate-name panic")
@@ -325,10 +418,20 @@ def reject(ctx, report, rule, facts, config):
         if dl is not None:
             pr.extend(_lookup_ways(ev, dl[0]))
             break
-    report.ob(rule, "add/duplicate-name", not problems and n_ok_paths >= 2, "; ".join(sorted(set(problems))) if problems else
+    # a registration cannot depend on itself: the own name enters the map only after every dependency name was looked up
+    for e in ends:
+        if e.kind != "return":
+            continue
+        dl = _dep_loop(ev, e)
+        calls_ = [x for x in e.path.events if x[0] == "call"]
+        posn = dict((id(x), i) for i, x in enumerate(e.path.events))
+        for x, _ in _name_inserts(ev, calls_):
+            if dl is None or posn[id(x)] < dl[2]:
+                pr.append("the system's own name is entered before its dependencies are resolved: a registration naming itself as a dependency is accepted")
+    report.ob(rule, "%s/duplicate-name" % M.label, not problems and n_ok_paths >= 2, "; ".join(sorted(set(problems))) if problems else
               "panics exactly when a non-empty name is already registered (message quotes the name), before the system is placed; empty names never touch the map",
               site=add.loc(), config=config)
-    report.ob(rule, "add/unknown-dependency", not pr, "; ".join(sorted(set(pr))) if pr else
+    report.ob(rule, "%s/unknown-dependency" % M.label, not pr, "; ".join(sorted(set(pr))) if pr else
               "a dependency name missing from the map panics with \"No such system registered (..)\", quoting it; found names yield their id", site=add.loc(), config=config)
 
 
